@@ -42,7 +42,8 @@ def _specs(ctx, game, n, one_column=False):
         svs = [(t[3 * n], ctx.real("mult"))]
         ctx.assume(svs[0][1] > 0)
     if game == "bms":
-        hits = [h + (dict(sample=b"a.wav"),) for h in hits]
+        hits = [h + (dict(sample=b"h%d.wav" % i),) for i, h in enumerate(hits)]
+        holds = [h + (dict(sample=b"l%d.wav" % i),) for i, h in enumerate(holds)]
     return hits, holds, bpms, svs
 
 
@@ -126,7 +127,7 @@ NOTE_COLS = dict(hits=("offset", "column"), holds=("offset", "column", "length")
 def _same_chart(ctx, label, x, y, extra=()):
     ctx.check(label + ".type", type(x) is type(y))
     for k in x.objs:
-        cols = NOTE_COLS.get(k, ("offset",)) + tuple(extra)
+        cols = NOTE_COLS.get(k, ("offset",)) + tuple(e for e in extra if e in x.objs[k].df.columns and k in ("hits", "holds"))
         ctx.check("%s.%s.same-objects" % (label, k), _same_multiset(ctx, _rows(x.objs[k], cols), _rows(y.objs[k], cols)),
                   note="%r vs %r" % (_rows(x.objs[k], cols)[:3], _rows(y.objs[k], cols)[:3]))
 
@@ -203,7 +204,7 @@ def ob_op(game, n, how, perm, opname, ctx):
         import reamber.algorithms.convert as CV
 
         cv = getattr(CV, opname[8:])
-        _same_chart(ctx, opname, _one(cv.convert(a)), _one(cv.convert(b)))
+        _same_chart(ctx, opname, _one(cv.convert(a)), _one(cv.convert(b)), extra=("hitsound_file", "sample", "keysounds"))
     else:
         raise KeyError(opname)
 
@@ -269,9 +270,38 @@ def ob_hitsound(how, perm, ctx):
     ctx.check("hitsound_copy.same-event-samples", _same_multiset(ctx, _rows(x.samples, ("offset", "sample_file")), _rows(y.samples, ("offset", "sample_file"))))
 
 
+def ob_hitsound_overflow(perm, ctx):
+    """more sounding source notes at one time than the target has notes there, in different volume groups: which sounds
+    survive must not depend on the row order of the source"""
+    from reamber.algorithms.osu.hitsound_copy import hitsound_copy
+
+    C = classes("osu")
+    T, U = ctx.real("T"), ctx.real("U")
+    ctx.assume(T != U)
+    src_rows = [(T, 0, dict(hitsound_set=2, volume=60)), (T, 1, dict(hitsound_set=4, volume=20)), (T, 2, dict(hitsound_set=8, volume=40)), (U, 3, dict(hitsound_set=2, volume=30))]
+    tgt_rows = [(T, 0, {}), (U, 1, {})]
+
+    def mk(rows, order):
+        m = C["Map"]()
+        m.hits = C["HitList"]([C["Hit"](*r[:-1], **r[-1]) for r in [rows[i] for i in order]])
+        m.bpms = C["BpmList"]([C["Bpm"](0, 120)])
+        m.circle_size = 4
+        return m
+
+    x = hitsound_copy(mk(src_rows, range(4)), mk(tgt_rows, range(2)))
+    y = hitsound_copy(mk(src_rows, perm), mk(tgt_rows, (1, 0)))
+    A = _rows(x.hits, ("offset", "hitsound_set", "hitsound_file", "volume"))
+    B = _rows(y.hits, ("offset", "hitsound_set", "hitsound_file", "volume"))
+    ctx.check("hitsound_copy.overflow.same-sounds-per-time", _same_multiset(ctx, A, B), note="%r vs %r" % (A, B))
+    ctx.check("hitsound_copy.overflow.same-event-samples", _same_multiset(ctx, _rows(x.samples, ("offset", "sample_file")), _rows(y.samples, ("offset", "sample_file"))))
+
+
 def obligations(tier, seed):
     quick = tier == "quick"
     obs = []
+    for perm in ((2, 0, 1, 3), (1, 2, 0, 3), (3, 2, 1, 0)) if quick else [p for p in itertools.permutations(range(4)) if list(p) != [0, 1, 2, 3]]:
+        obs.append(Obligation("C15/osu/hitsound_copy-overflow/%s" % "".join(map(str, perm)), partial(ob_hitsound_overflow, perm),
+                              bound="hitsound_copy with three sounding source notes at one (symbolic) time in three volume groups and one target note there; source rows in order %s" % (perm,)))
     ops_all = ["rate", "full_ln", "full_ln-hits-only", "full_ln-holds-only", "dominant_bpm", "scroll_speed", "scroll_speed-override"]
     conv = {"osu": ["convert-OsuToQua", "convert-OsuToSM", "convert-OsuToBMS"], "qua": ["convert-QuaToOsu", "convert-QuaToSM", "convert-QuaToBMS"],
             "bms": ["convert-BMSToOsu", "convert-BMSToQua", "convert-BMSToSM"], "sm": [], "o2j": []}
